@@ -54,7 +54,7 @@ class Violation(Exception):
     pass
 
 
-def run(cmd, timeout=240):
+def run(cmd, timeout=90):
     STATS["invocations"] += 1
     try:
         p = subprocess.run(cmd, env=ENV, stdout=subprocess.PIPE, stderr=subprocess.PIPE, timeout=timeout)
